@@ -3,6 +3,38 @@ import time, z3
 from . import rexsat as R
 
 
+XCHECK = {"n": 0, "agree": 0, "disagree": [], "inconclusive": 0}
+
+
+def cross_check(sv, result, every=25):
+    """diff two other solvers (z3 4.8.12 binary, cvc5 1.0.3 binary) against the verdict of the z3 5.1 library on the SMT-LIB dump of a
+    sampled query; a disagreement is a harness error (never a pass)"""
+    import os, subprocess, tempfile
+    XCHECK["n"] += 1
+    if every <= 0 or (XCHECK["n"] - 1) % every != 0:
+        return
+    text = "(set-logic ALL)\n" + sv.to_smt2()
+    fd, path = tempfile.mkstemp(suffix=".smt2")
+    try:
+        with os.fdopen(fd, "w") as f:
+            f.write(text)
+        for cmd in (["/usr/bin/z3", "-T:20", path], ["cvc5", "--tlimit=20000", path]):
+            try:
+                r = subprocess.run(cmd, capture_output=True, text=True, timeout=40)
+                out = (r.stdout + r.stderr)
+                first = out.strip().splitlines()[0].strip() if out.strip() else ""
+            except Exception as e:
+                first = "error %r" % (e,)
+            if "(error" in out or first not in ("sat", "unsat"):
+                XCHECK["inconclusive"] += 1
+            elif first == result:
+                XCHECK["agree"] += 1
+            else:
+                XCHECK["disagree"].append((cmd[0], first, result))
+    finally:
+        os.unlink(path)
+
+
 def solve_conds(prob, conds, extra=()):
     """conds: {key: violation condition}. Returns (result, text, key, solver_s)"""
     viol = R.OR(*conds.values())
@@ -17,6 +49,11 @@ def solve_conds(prob, conds, extra=()):
     t1 = time.time()
     r = str(sv.check())
     dt = time.time() - t1
+    import os as _os
+    if r in ("sat", "unsat") and _os.environ.get("VERIF_XCHECK", "") != "0":
+        cross_check(sv, r, int(_os.environ.get("VERIF_XCHECK_EVERY", "40")))
+        if XCHECK["disagree"]:
+            raise RuntimeError("solver disagreement on an SMT-LIB dump: %r" % XCHECK["disagree"][:2])
     if r == "sat":
         m = sv.model()
         text = prob.text_of(m)
